@@ -309,6 +309,7 @@ const EXOTIC_TYPES: &[&str] = &[
     "HashSet<>", "Vec<>>", "BTreeMap<String>", "Result<>", "HashMap<,>", "Option< String >", "Vec <u8>", "Result<String , >",
     // the framework's own generic types without / with odd arguments (`Channel` has a defaulted parameter)
     "Channel<>", "tauri::ipc::Channel<>", "Channel", "Channel<'a>", "Channel<u8, u8>", "State<>", "tauri::State<'_>", "Window<>", "AppHandle<>", "Channel<()>",
+    "Option<'static>", "Option<'_>", "Result<Option<'a>, String>", "Vec<'a>", "Result<'a, 'b>", "HashMap<'a, 'b>", "Box<'static>",
     "Channel<(u64, u64)>", "Channel<[u8; 4]>", "Channel<&[u8]>", "std::option::Option<String>", "core::option::Option<u8>", "::std::option::Option<Vec<u8>>",
 ];
 
